@@ -32,7 +32,7 @@ impl Server {
             eprintln!("unable to read TCP stream {}", &message);
 
             let raw_response = Server::bad_request_response(message);
-            let boxed_stream = stream.write(raw_response.borrow());
+            let boxed_stream = stream.write_all(raw_response.borrow());
             if boxed_stream.is_ok() {
                 let boxed_flush = stream.flush();
                 if boxed_flush.is_err() {
@@ -55,7 +55,7 @@ impl Server {
             eprintln!("unable to parse request: {}", &message);
 
             let raw_response = Server::bad_request_response(message);
-            let boxed_stream = stream.write(raw_response.borrow());
+            let boxed_stream = stream.write_all(raw_response.borrow());
             if boxed_stream.is_ok() {
                 let boxed_flush = stream.flush();
                 if boxed_flush.is_err() {
@@ -74,7 +74,7 @@ impl Server {
         println!("{}", log_request_response);
         let raw_response = Response::generate_response(response, request);
 
-        let boxed_stream = stream.write(raw_response.borrow());
+        let boxed_stream = stream.write_all(raw_response.borrow());
         if boxed_stream.is_ok() {
             let boxed_flush = stream.flush();
             if boxed_flush.is_err() {
@@ -124,7 +124,7 @@ impl Server {
         if boxed_read.is_err() {
             let read_message = boxed_read.err().unwrap().to_string();
             let raw_response = Server::bad_request_response(read_message.clone());
-            let boxed_stream = stream.write(raw_response.borrow());
+            let boxed_stream = stream.write_all(raw_response.borrow());
             if boxed_stream.is_ok() {
                 let boxed_flush = stream.flush();
                 if boxed_flush.is_err() {
@@ -151,7 +151,7 @@ impl Server {
             let message = boxed_request.err().unwrap();
 
             let raw_response = Server::bad_request_response(message.clone());
-            let boxed_stream = stream.write(raw_response.borrow());
+            let boxed_stream = stream.write_all(raw_response.borrow());
             if boxed_stream.is_ok() {
                 let boxed_flush = stream.flush();
                 if boxed_flush.is_err() {
@@ -173,7 +173,7 @@ impl Server {
             let message = app_processing.as_ref().err().unwrap().to_string();
             let response = Server::bad_request_response(message.clone());
 
-            let boxed_stream = stream.write(response.borrow());
+            let boxed_stream = stream.write_all(response.borrow());
             if boxed_stream.is_ok() {
                 let boxed_flush = stream.flush();
                 if boxed_flush.is_err() {
@@ -195,7 +195,7 @@ impl Server {
 
         let raw_response = Response::generate_response(response, request);
 
-        let boxed_stream = stream.write(raw_response.borrow());
+        let boxed_stream = stream.write_all(raw_response.borrow());
         if boxed_stream.is_ok() {
             let boxed_flush = stream.flush();
             if boxed_flush.is_err() {
